@@ -58,6 +58,14 @@ CHECKS = {
    text="Symbolic check of the encodable clauses: P_RAM / P_RAJ component Woehler curves (log domain): calc_N and calc_P mutual inverses in the finite range, continuity at N = 1e3 and at the endurance knee, strictly decreasing, infinite at and below the endurance value; P_RAM damage parameter == sqrt((S_a + k S_m) eps_a E) with the guideline's mean-stress factor and zero for a negative product (sqrt exact); DamageCalculatorPRAM lifetime (sequence repetitions and cycles, infinite-life flag) == literal accumulation of first-pass damage once and second-pass damage repeatedly, half hystereses half, early failure by running sum, for every closed/half x pass pattern up to the bound; gamma_L of the normal / log-normal / blanket load safety accessors == guideline formulas.",
    note="Claimed in part: compute_beta (root search on |Phi(x)-P_A|), the P_RAJ damage parameter (cos, real powers, Newton) and DamageCalculatorPRAJ are outside. Curve exponents are the constants of three material groups; R_m in {400,600,1200}; x**y in the damage calculator is an arbitrary positive number depending on (x,y) (represented as 1/t, t > 0 fresh); 1..3 (quick) / 1..5 (thorough) hystereses.",
    design="6 C09"),
+ "C18": dict(
+   text="Bounded exhaustive symbolic check of the one encodable clause: FatigueData zone logic on symbolic loads and cycles for every fracture-flag pattern: finite and infinite zone are disjoint and cover all tests, every infinite-zone load <= reported transition <= every finite-zone load, all tests in the finite zone without run-outs, zone membership and transition invariant under row permutation.",
+   note="Claimed for this clause only: equivariance, exact recovery and likelihood ordering of the Elementary / Probit / MaxLike analyzers are outside (least squares, scipy.optimize.fmin, norm.ppf on symbolic data have no encoding). 2..3 (quick) / 2..4 (thorough) test rows; admissible data (two distinct fracture loads and cycle numbers). pandas.Series.unique gets an object-dtype fall-back.",
+   design="6 C18"),
+ "C19": dict(
+   text="Bounded exhaustive symbolic check of the hot-spot clause: HotSpot.calc on concrete small meshes (shared nodes, disconnected, chains, id gaps, shuffled rows) with symbolic positive pairwise distinct field values against union-find components: exactly the entries >= fraction * maximum are labelled, labels are the connected components under shared-node / shared-element adjacency, numbered by descending peak.",
+   note="Claimed for this clause only: gradients (lstsq, Jacobians), mesh mapping (Qhull) and surface detection (arccos) are outside. Meshes with 4..6 entries enumerated, fractions 0.5 and 0.9.",
+   design="6 C19"),
 }
 NA = {
  "C06": "subject is convergence/accuracy of scipy Newton/secant iterations on equations with real-exponent powers: no SMT theory for x**y, cos, log or for float iteration convergence; stubbing the power removes the subject",
